@@ -272,6 +272,31 @@ func runCheck(repo, prop, tier string, rest []string) int {
 		timeout, _ = strconv.Atoi(t)
 	}
 	dischargeAll(c.jobs, timeout, false)
+	// second look: an obligation that is claimed (proved on the unchanged tree, or not under a ledger at all) and came back
+	// INCONCLUSIVE (timeout / unknown - not a refutation) is run again, a few at a time and with three times the limit, before
+	// it is reported: on a loaded machine sixteen solver processes per check compete for the cores
+	if os.Getenv("VERIF_WRITE_LEDGER") == "" {
+		var again []job
+		for _, j := range c.jobs {
+			if j.o.Cover || j.o.Result == "unsat" || j.o.Result == "sat" || j.o.Result == "contract-error" {
+				continue
+			}
+			if c.useLedger && !c.provedLedger[j.o.Name] {
+				continue
+			}
+			again = append(again, j)
+		}
+		if len(again) > 0 && len(again) <= 200 {
+			for i := 0; i < len(again); i += 4 {
+				k := i + 4
+				if k > len(again) {
+					k = len(again)
+				}
+				dischargeAll(again[i:k], 3*timeout, false)
+			}
+			c.extraEv["inconclusive_obligations_run_again"] = len(again)
+		}
+	}
 	if os.Getenv("VERIF_WRITE_LEDGER") != "" && c.useLedger {
 		writeLedger(prop, c.jobs)
 	}
